@@ -20,7 +20,7 @@ From ClapModel Require Import Complete.EngineModel Complete.EngineProofs.
 From ClapModel Require Import Parse.Cmd Parse.Build Parse.Valid Parse.Matcher Parse.Errors Parse.Validator Parse.Parser.
 From ClapModel Require Import ParseProofs.Spelling ParseProofs.Dispatch ParseProofs.ErrorSound.
 From ClapModel Require Import ParseProofs.Actions ParseProofs.ActionsLoop ParseProofs.ActionsTop ParseProofs.Chain ParseProofs.ChainWide.
-From ClapModel Require Import Complete.EngineAccept Complete.EngineLevel Complete.EngineLine.
+From ClapModel Require Import Complete.EngineAccept Complete.EngineLevel Complete.EngineLine Complete.EngineItems.
 From ClapModel Require ParseProofs.UnparseLift ParseProofs.UnparseProofs.
 From Coq Require Import ZArith Lia List Bool.
 From RecordUpdate Require Import RecordSet.
@@ -134,14 +134,14 @@ Proof.
   apply N.ltb_lt in Hn. unfold eng_num_args in Hn. rewrite Hn. reflexivity.
 Qed.
 
-(** POS_INDEX AGREEMENT, options and single-valued positionals: along [pitems] the engine's index moves from
-    [pos] to [pos'] exactly as the parser's counter does ([ChainWide.loop_pitems]) *)
-Theorem eng_pitems pos pre F pos' : pitems pc pos pre F pos' ->
+(** POS_INDEX AGREEMENT, options and single-valued positionals: along [pitems18] the engine's index moves from
+    [pos] to [pos'] exactly as the parser's counter does ([EngineItems.loop_pitems18]) *)
+Theorem eng_pitems pos pre F pos' : pitems18 pc pos pre F pos' ->
   shadow_run pre cur pos false ValueDone = SNext cur pos' false ValueDone.
 Proof.
   induction 1 as [pos|pos toks F pre G pos' Hi Hp IH|pos tok a pre G pos' Hns Hpl Ht Hm Hp IH].
   - reflexivity.
-  - rewrite shadow_run_app, (eng_item pc cur L toks F pos Hi). exact IH.
+  - rewrite shadow_run_app, (eng_item18 pc cur L toks F pos Hi). exact IH.
   - cbn [shadow_run]. destruct Ht as [_ [Hg _]].
     rewrite (eng_pos_single tok a pos Hns Hpl Hg Hm). exact IH.
 Qed.
@@ -209,16 +209,37 @@ Proof. intros [V Hsa Hal _]. constructor; assumption. Qed.
     positional [a] where the parser is in [PSPos (a_id a)] - as long as [a] can take more ([k] below the
     engine's [num_args]: the maximum of the range, unbounded for an appending positional) *)
 Inductive body18 (c : cmd) : list bytes -> (ps -> res ps) -> pstate_t -> N -> pstate -> Prop :=
-| b18_plain pre F pos' : pitems c 1 pre F pos' -> body18 c pre F PSValuesDone pos' ValueDone
-| b18_multi pre F pos' a v1 vs : pitems c 1 pre F pos' -> multi_vals c pos' a v1 vs ->
+| b18_plain pre F pos' : pitems18 c 1 pre F pos' -> body18 c pre F PSValuesDone pos' ValueDone
+| b18_multi pre F pos' a v1 vs : pitems18 c 1 pre F pos' -> multi_vals c pos' a v1 vs ->
     N.of_nat (length (v1 :: vs)) < eng_num_args a ->
     body18 c (pre ++ v1 :: vs) (fun st => do st' <- F st; push_all c a (v1 :: vs) st') (PSPos (a_id a)) pos'
            (Pos pos' (N.of_nat (length (v1 :: vs)))).
 
-Lemma body18_wbody c pre F pst pos est : body18 c pre F pst pos est -> wbody c pre F pst pos.
-Proof. intros [pre0 F0 pos0 Hp|pre0 F0 pos0 a v1 vs Hp Hm _]; [apply wb_plain|apply wb_multi]; assumption. Qed.
+(** the parser side ([ChainWide.loop_wbody] over the wider items) *)
+Lemma loop_body18 c pre F pst pos' est : body18 c pre F pst pos' est -> forall rest vaf st, fs_skip st = 0 ->
+  parse_loop c (pre ++ rest) (lsV 1 vaf) st =
+  (do st' <- F st; parse_loop c rest (mkL pst pos' (vaf || negb (is_nil pre)) false) st').
+Proof.
+  intros [pre0 F0 pos0 Hp|pre0 F0 pos0 a v1 vs Hp Hm _] rest vaf st Hfs.
+  - exact (loop_pitems18 c 1 pre0 F0 pos0 Hp rest vaf st Hfs).
+  - rewrite <- app_assoc. rewrite (loop_pitems18 c 1 pre0 F0 pos0 Hp ((v1 :: vs) ++ rest) vaf st Hfs).
+    destruct (F0 st) as [st1|e s1|x]; cbn [rbind]; try reflexivity.
+    rewrite (loop_multi c pos0 a v1 vs Hm rest _ st1).
+    replace (vaf || negb (is_nil (pre0 ++ v1 :: vs))) with true; [reflexivity|].
+    destruct pre0; cbn [app is_nil negb]; rewrite orb_true_r; reflexivity.
+Qed.
 
-(** STATE AND POS_INDEX AGREEMENT on one level, engine side (the parser side is [ChainWide.loop_wbody]) *)
+Lemma body18_fs c pre F pst pos' est : body18 c pre F pst pos' est -> forall st st', F st = ROk st' ->
+  fs_skip st' = fs_skip st /\ fs_at st' = fs_at st.
+Proof.
+  intros [pre0 F0 pos0 Hp|pre0 F0 pos0 a v1 vs Hp Hm _] st st' H.
+  - exact (pitems18_fs c 1 pre0 F0 pos0 Hp st st' H).
+  - destruct (F0 st) as [st1|e s1|x] eqn:E; cbn [rbind] in H; try discriminate.
+    destruct (pitems18_fs c 1 pre0 F0 pos0 Hp st st1 E) as [H1 H2].
+    destruct (push_all_fs c a _ _ _ H) as [H3 H4]. rewrite H3, H4. split; assumption.
+Qed.
+
+(** STATE AND POS_INDEX AGREEMENT on one level, engine side (the parser side is [loop_body18]) *)
 Theorem eng_body pc cur pre F pst pos est : elevel pc cur -> body18 pc pre F pst pos est ->
   shadow_run pre cur 1 false ValueDone = SNext cur pos false est.
 Proof.
@@ -240,7 +261,7 @@ Definition may_select (c : cmd) (pst : pstate_t) : Prop :=
     [pcf] (lazily built) ends between arguments ([pitems]) with the positional counter [posf]; [vf] = an argument
     of [pcf] was seen *)
 Inductive pline : cmd -> list bytes -> cmd -> N -> bool -> Prop :=
-| pl_here pc pre F pos' : lvlw pc -> pitems pc 1 pre F pos' -> pline pc pre pc pos' (negb (is_nil pre))
+| pl_here pc pre F pos' : lvlw pc -> pitems18 pc 1 pre F pos' -> pline pc pre pc pos' (negb (is_nil pre))
 | pl_down pc pre F pst pos' est tok sc0 pc' rest pcf posf vf :
     lvlw pc -> body18 pc pre F pst pos' est -> may_select pc pst ->
     (is_set s_args_negate_subs pc = true -> pre = []) ->
@@ -255,10 +276,10 @@ Proof. induction 1; assumption. Qed.
 Theorem cline_pline pc line pcf : cline pc line pcf -> exists vf, pline pc line pcf 1 vf.
 Proof.
   induction 1 as [pc pre Hl [F Hp]|pc pre tok sc0 pc' rest pcf Hl [F Hp] Hu Hf Hnh Hb Hline [vf IH]].
-  - eexists. eapply pl_here; [exact (lvl18_lvlw pc Hl)|exact (prefix_pitems pc pre F Hp 1)].
+  - eexists. eapply pl_here; [exact (lvl18_lvlw pc Hl)|exact (pitems_pitems18 pc 1 pre F 1 (prefix_pitems pc pre F Hp 1))].
   - exists vf. eapply (pl_down pc pre F PSValuesDone 1 ValueDone); try eassumption.
     + exact (lvl18_lvlw pc Hl).
-    + apply b18_plain. exact (prefix_pitems pc pre F Hp 1).
+    + apply b18_plain. exact (pitems_pitems18 pc 1 pre F 1 (prefix_pitems pc pre F Hp 1)).
     + exact I.
     + intros E. rewrite (l_neg pc Hl) in E. discriminate.
 Qed.
@@ -307,33 +328,13 @@ Proof.
   - discriminate.
 Qed.
 
-Lemma sep_fn_err c idn a v st e s : sep_fn c idn a v st = RErr e s -> reaction_error c e.
-Proof.
-  unfold sep_fn. destruct (resolve_pending c st) as [st1|e1 s1|x] eqn:E; cbn [rbind]; try discriminate.
-  intros H. inversion H; subst. eapply resolve_pending_err; eauto.
-Qed.
-
-Lemma pitems_err c pos pre F pos' : pitems c pos pre F pos' -> forall st e s, F st = RErr e s -> reaction_error c e.
-Proof.
-  induction 1 as [pos|pos toks F pre G pos' Hi Hp IH|pos tok a pre G pos' Hns Hpl Ht Hm Hp IH]; intros st e s H.
-  - discriminate.
-  - destruct (F st) as [st1|e1 s1|x] eqn:E; cbn [rbind] in H.
-    + eapply IH; eauto.
-    + inversion H; subst. eapply item_err; eauto.
-    + discriminate.
-  - destruct (sep_fn c IIndex a tok st) as [st1|e1 s1|x] eqn:E; cbn [rbind] in H.
-    + eapply IH; eauto.
-    + inversion H; subst. eapply sep_fn_err; eauto.
-    + discriminate.
-Qed.
-
 Lemma body18_err c pre F pst pos est : body18 c pre F pst pos est -> forall st e s, F st = RErr e s -> reaction_error c e.
 Proof.
   intros [pre0 F0 pos0 Hp|pre0 F0 pos0 a v1 vs Hp Hm _] st e s H.
-  - eapply pitems_err; eauto.
+  - eapply pitems18_err; eauto.
   - destruct (F0 st) as [st1|e1 s1|x] eqn:E; cbn [rbind] in H.
     + eapply push_all_err; eauto.
-    + inversion H; subst. eapply pitems_err; eauto.
+    + inversion H; subst. eapply pitems18_err; eauto.
     + discriminate.
 Qed.
 
@@ -345,9 +346,9 @@ Lemma gmw_levelw c pre F pst pos' est tail : body18 c pre F pst pos' est ->
 Proof.
   intros Hbd Ht f st0 Hfs. destruct f as [|f]; [intros e st H; discriminate H|].
   rewrite gmw_unfold. apply post_no_unknown. rewrite parsed_of_dispatch.
-  rewrite (loop_wbody c pre F pst pos' (body18_wbody c pre F pst pos' est Hbd) tail false st0 Hfs). cbn [orb].
+  rewrite (loop_body18 c pre F pst pos' est Hbd tail false st0 Hfs). cbn [orb].
   destruct (F st0) as [st'|e1 s1|x] eqn:EF; cbn [rbind].
-  - apply Ht. destruct (wbody_fs c pre F pst pos' (body18_wbody c pre F pst pos' est Hbd) st0 st' EF) as [H1 _].
+  - apply Ht. destruct (body18_fs c pre F pst pos' est Hbd st0 st' EF) as [H1 _].
     rewrite H1. exact Hfs.
   - intros e st H Hk. inversion H; subst. eapply reaction_not_unknown; [eapply body18_err; eauto|exact Hk].
   - intros e st H. discriminate H.
@@ -580,7 +581,7 @@ Theorem state_agreement_positionals pc cur pre F pst pos est : elevel pc cur -> 
   end.
 Proof.
   intros L Hbd. split; [exact (eng_body pc cur pre F pst pos est L Hbd)|].
-  split; [exact (loop_wbody pc pre F pst pos (body18_wbody pc pre F pst pos est Hbd))|].
+  split; [exact (loop_body18 pc pre F pst pos est Hbd)|].
   destruct Hbd as [pre0 F0 pos0 Hp|pre0 F0 pos0 a v1 vs Hp Hm Hn]; [reflexivity|].
   split; [reflexivity|]. exists a. split; [reflexivity|].
   destruct Hm as [Hmul [_ [_ Hall]]]. inversion Hall as [|x t [_ [_ [Hg _]]] _]; subst.
@@ -646,8 +647,9 @@ Definition w_force : bytes := [102; 111; 114; 99; 101].
 Definition w_src : bytes := [115; 114; 99].
 Definition w_files : bytes := [102; 105; 108; 101; 115].
 Definition w_name : bytes := [110; 97; 109; 101].
+Definition w_pair : bytes := [112; 97; 105; 114].
 Definition ddw (s : bytes) : bytes := 45 :: 45 :: s.
-(** p(-v; <src>) -> remote(--tag/-t <v>...; <files>...; precedence) -> add|ad(--force/-f; <name>; args conflict) -> deep *)
+(** p(-v; <src>) -> remote(--tag/-t <v>...; --pair/-p <a> <b>; <files>...; precedence) -> add|ad(--force/-f; <name>; args conflict) -> deep *)
 Definition exw : cmd :=
   (cmd_new (b1 112))
     <| c_args := [ ex_flag 118 118; (arg_new w_src) <| a_action := Some ASet |> ] |>
@@ -655,6 +657,8 @@ Definition exw : cmd :=
       [ (cmd_new w_remote)
           <| c_set := settings_none <| s_sub_precedence := true |> |>
           <| c_args := [ (arg_new w_tag) <| a_long := Some w_tag |> <| a_short := Some 116 |> <| a_action := Some AAppend |>;
+                         (arg_new w_pair) <| a_long := Some w_pair |> <| a_short := Some 112 |> <| a_action := Some ASet |>
+                           <| a_num := Some {| vmin := 2; vmax := 2 |} |>;
                          (arg_new w_files) <| a_action := Some AAppend |> <| a_num := Some {| vmin := 1; vmax := usize_max |} |> ] |>
           <| c_subs :=
             [ (cmd_new w_add) <| c_aliases := [([97; 100], true)] |>
@@ -665,20 +669,20 @@ Definition exw : cmd :=
 Definition root : cmd := build_self (with_bin exw (b1 112)).
 Definition pc1 : cmd := match build_subcommand root w_remote with Some x => x | None => cmd_new [] end.
 Definition pc2 : cmd := match build_subcommand pc1 w_add with Some x => x | None => cmd_new [] end.
-(** `-v a remote --tag x f1 f2 ad [n1]` *)
+(** `-v a remote --pair a b -t=x --tag x f1 f2 ad [n1]` *)
 Definition pre0 : list bytes := [[45; 118]; b1 97].
-Definition pre1 : list bytes := [ddw w_tag; b1 120] ++ [102; 49] :: [[102; 50]].
+Definition pre1 : list bytes := ([ddw w_pair; b1 97; b1 98] ++ [[45; 116; 61; 120]] ++ [ddw w_tag; b1 120]) ++ [102; 49] :: [[102; 50]].
 Definition line_of (pre2 : list bytes) : list bytes := pre0 ++ w_remote :: (pre1 ++ [97; 100] :: pre2).
 Definition lineA : list bytes := line_of [].
 Definition lineB : list bytes := line_of [[110; 49]].
 
-Lemma ex_pline pre2 F posf : pitems pc2 1 pre2 F posf -> pline root (line_of pre2) pc2 posf (negb (is_nil pre2)).
+Lemma ex_pline pre2 F posf : pitems18 pc2 1 pre2 F posf -> pline root (line_of pre2) pc2 posf (negb (is_nil pre2)).
 Proof.
   intros Hp2. unfold line_of.
   eapply (pl_down root pre0 _ PSValuesDone 2 ValueDone w_remote _ pc1).
   - apply lvlw_b_ok. vmr.
-  - apply b18_plain. eapply (pi_opt _ 1 [[45; 118]] _ [b1 97]); [flag_cluster 118|].
-    eapply (pi_pos _ 1 (b1 97) _ []); [solve_nosub|solve_plain|solve_takes|vmr|apply pi_nil].
+  - apply b18_plain. eapply (p18_opt _ 1 [[45; 118]] _ [b1 97]); [apply i18_base; flag_cluster 118|].
+    eapply (p18_pos _ 1 (b1 97) _ []); [solve_nosub|solve_plain|solve_takes|vmr|apply p18_nil].
   - exact I.
   - intros E. vm_compute in E. discriminate E.
   - vmr.
@@ -687,9 +691,16 @@ Proof.
   - vmr.
   - unfold pre1. eapply (pl_down pc1 _ _ _ 1 _ [97; 100] _ pc2).
     + apply lvlw_b_ok. vmr.
-    + eapply (b18_multi pc1 [ddw w_tag; b1 120] _ 1 _ [102; 49] [[102; 50]]).
-      * eapply (pi_opt _ 1 [ddw w_tag; b1 120] _ []); [|apply pi_nil].
-        eapply it_sep; [solve_nosub|vmr|vmr|vmr|vmr|vmr|vmr|vmr|solve_nosub|vmr|vmr|vmr|vmr].
+    + eapply (b18_multi pc1 _ _ 1 _ [102; 49] [[102; 50]]).
+      * eapply (p18_opt _ 1 [ddw w_pair; b1 97; b1 98]).
+        { eapply (i18_long_multi _ (ddw w_pair) w_pair _ _ [b1 97; b1 98]);
+            [solve_nosub|vmr|vmr|vmr|vmr|vmr|vmr|discriminate|vmr|].
+          repeat (apply Forall_cons; [split; [solve_nosub|split; [solve_plain|vmr]]|]). apply Forall_nil. }
+        eapply (p18_opt _ 1 [[45; 116; 61; 120]]).
+        { eapply (i18_short_eq _ [45; 116; 61; 120] [116; 61; 120] 116 [120]);
+            [solve_nosub|vmr|vmr|vmr|vmr|vmr|vmr|vmr|apply no_hyphen_of_args; vmr]. }
+        eapply (p18_opt _ 1 [ddw w_tag; b1 120] _ []); [|apply p18_nil].
+        apply i18_base. eapply it_sep; [solve_nosub|vmr|vmr|vmr|vmr|vmr|vmr|vmr|solve_nosub|vmr|vmr|vmr|vmr].
       * refine (conj _ (conj _ (conj _ _))); cycle 3.
         -- repeat (apply Forall_cons; [split; [solve_plain|solve_takes]|]). apply Forall_nil.
         -- vmr.
@@ -706,12 +717,12 @@ Proof.
 Qed.
 
 Lemma ex_plineA : pline root lineA pc2 1 false.
-Proof. exact (ex_pline [] _ 1 (pi_nil pc2 1)). Qed.
+Proof. exact (ex_pline [] _ 1 (p18_nil pc2 1)). Qed.
 
 Lemma ex_plineB : pline root lineB pc2 2 true.
 Proof.
   refine (ex_pline [[110; 49]] _ 2 _).
-  eapply (pi_pos _ 1 [110; 49] _ []); [solve_nosub|solve_plain|solve_takes|vmr|apply pi_nil].
+  eapply (p18_pos _ 1 [110; 49] _ []); [solve_nosub|solve_plain|solve_takes|vmr|apply p18_nil].
 Qed.
 
 (** `p <lineA> d<TAB>` offers `deep` (no argument of `add` seen: the parser still looks for subcommands);
@@ -778,7 +789,7 @@ Lemma conflict_kind c tok : has_subcommands c = true -> is_set s_args_negate_sub
 Proof. intros Hs Hn. unfold match_arg_error. cbn [andb]. rewrite Hs, Hn. reflexivity. Qed.
 
 (** THE CHARACTERISATION.  Level [pc] sets [args_conflicts_with_subcommands]; [pre] are arguments of the level
-    (options, single-valued positionals); [tok] names the subcommand [sc0].
+    (options, single-valued positionals: [pitems18]); [tok] names the subcommand [sc0].
     (1) the ENGINE descends to the child, whatever [pre] is;
     (2) [pre = []]: the PARSER dispatches to the same child - the levels agree;
     (3) [pre <> []]: the parser does not look [tok] up as a subcommand; with a positional [a] left at the counter it
@@ -786,7 +797,7 @@ Proof. intros Hs Hn. unfold match_arg_error. cbn [andb]. rewrite Hs, Hn. reflexi
         left it rejects the line: ArgumentConflict. *)
 Theorem args_conflict_levels pc cur pre F pos tok sc0 :
   lvlw pc -> lvl_rel pc cur -> is_set s_args_negate_subs pc = true ->
-  pitems pc 1 pre F pos -> utf8_valid tok = true -> find_subcommand pc tok = Some sc0 -> aliases_to sc0 s_help = false ->
+  pitems18 pc 1 pre F pos -> utf8_valid tok = true -> find_subcommand pc tok = Some sc0 -> aliases_to sc0 s_help = false ->
   (exists es pc', shadow_run (pre ++ [tok]) cur 1 false ValueDone = SNext es 1 false ValueDone /\
                   build_subcommand pc (c_name sc0) = Some pc' /\ lvl_rel pc' es) /\
   (pre = [] -> forall rest st, exists n', find_subcommand pc n' = Some sc0 /\
@@ -820,7 +831,7 @@ Proof.
     assert (Hvaf : negb (is_nil pre) = true) by (destruct pre; [contradiction|reflexivity]).
     assert (Hloop : parse_loop pc (pre ++ tok :: rest) (lsV 1 false) st =
                     (do st' <- F st; parse_loop pc (tok :: rest) (lsV pos true) st')).
-    { rewrite (loop_pitems pc 1 pre F pos Hp (tok :: rest) false st Hfs). cbn [orb]. rewrite Hvaf. reflexivity. }
+    { rewrite (loop_pitems18 pc 1 pre F pos Hp (tok :: rest) false st Hfs). cbn [orb]. rewrite Hvaf. reflexivity. }
     assert (Hns : (if is_set s_sub_precedence pc || true then possible_subcommand pc tok true else None) = None).
     { rewrite orb_true_r. exact (negate_no_sub pc tok Hneg). }
     split.
@@ -880,18 +891,18 @@ Proof. vm_compute. repeat split; reflexivity. Qed.
 Example ex_conflict_hyps :
   let r1 := build_self (with_bin Conflict.c1 [112]) in
   let r2 := build_self (with_bin Conflict.c2 [112]) in
-  (lvlw r1 /\ is_set s_args_negate_subs r1 = true /\ (exists F, pitems r1 1 [Conflict.f] F 1) /\
+  (lvlw r1 /\ is_set s_args_negate_subs r1 = true /\ (exists F, pitems18 r1 1 [Conflict.f] F 1) /\
    utf8_valid Conflict.w_sub = true /\ (exists sc0, find_subcommand r1 Conflict.w_sub = Some sc0 /\ aliases_to sc0 s_help = false) /\
    plain_tok Conflict.w_sub /\ pos_plain r1 /\ get_pos r1 1 = None /\ is_set s_allow_external r1 = false) /\
-  (lvlw r2 /\ is_set s_args_negate_subs r2 = true /\ (exists F, pitems r2 1 [Conflict.f] F 1) /\
+  (lvlw r2 /\ is_set s_args_negate_subs r2 = true /\ (exists F, pitems18 r2 1 [Conflict.f] F 1) /\
    plain_tok Conflict.w_sub /\ exists a, takes_at r2 1 a Conflict.w_sub).
 Proof.
   cbv zeta. split.
   - split; [apply lvlw_b_ok; vmr|]. split; [vmr|]. split.
-    { eexists. eapply (pi_opt _ 1 [Conflict.f] _ []); [flag_cluster 102|apply pi_nil]. }
+    { eexists. eapply (p18_opt _ 1 [Conflict.f] _ []); [apply i18_base; flag_cluster 102|apply p18_nil]. }
     split; [vmr|]. split; [eexists; split; vmr|]. split; [solve_plain|]. split; [split; vmr|]. split; vmr.
   - split; [apply lvlw_b_ok; vmr|]. split; [vmr|]. split.
-    { eexists. eapply (pi_opt _ 1 [Conflict.f] _ []); [flag_cluster 102|apply pi_nil]. }
+    { eexists. eapply (p18_opt _ 1 [Conflict.f] _ []); [apply i18_base; flag_cluster 102|apply p18_nil]. }
     split; [solve_plain|]. eexists. solve_takes.
 Qed.
 
